@@ -21,6 +21,8 @@ func checkC06(c *Ctx) {
 	c.Rule("C06-R5", "PollEvent/PostEventWait/ChannelEvents: every blocking operation has a StopQ alternative; PollEvent returns nil on it")
 	c.Rule("C06-R9", "a finished screen stays finished: every close of a quit channel runs at most once (sync.Once, or behind a flag tested and set under the lock), and engage refuses to restart a screen whose fini flag is set")
 	c.Expect("C06-R9", 3)
+	c.Rule("C06-R10", "no half-done state around the hand-over: a refused engage has stored nothing in the screen (a Resume turned down as 'already engaged' must not have replaced the stop channel the running loops listen to), and Fini marks the screen finished before its teardown releases the mutex")
+	c.Expect("C06-R10", 2)
 	c.Rule("C06-R8", "drawing cannot wedge a suspended screen: draw() returns at once unless the screen is running, and the column loop of every painter advances by at least one per cell (a width below 1, as reported for a cell outside the buffer, is raised to 1)")
 	c.Expect("C06-R8", 2)
 	c.Rule("C06-R7", "what the API methods dereference without a nil test stays in place after Fini: the Tty and Terminfo of a screen are stored (non-nil) by its constructor or Init only")
@@ -692,7 +694,63 @@ func c06FinishedStays(c *Ctx, p *Prog) {
 			}
 		}
 		c.Check(ok, "C06-R9", "engage:refuses-after-Fini", p.pos(eng.Pos()), "Tty.Start is reached only with t.fini false (Resume after Fini must not re-enter the terminal)")
+		// R10 (a): a refused engage leaves the screen as it was.  No store to a field of the screen can be
+		// followed by a return of a non-nil error: a Resume() that is turned down ("already engaged")
+		// after it replaced the stop channel leaves the running loops listening to a channel nobody closes
+		bad := ""
+		for _, r := range returnsOf(eng) {
+			if len(r.Results) != 1 || isNilConst(derefCell(resultOf(r, 0))) {
+				continue
+			}
+			eachInstr(eng, func(in ssa.Instruction) {
+				st, isSt := in.(*ssa.Store)
+				if !isSt {
+					return
+				}
+				if ref, _, okR := fieldAddrRef(st.Addr); okR && ref.Owner == "tcell.tScreen" && reachableAfter(st, r) {
+					bad += fmt.Sprintf("t.%s is stored at %s before the refusal at %s; ", ref.Name, p.pos(st.Pos()), p.pos(r.Pos()))
+				}
+			})
+		}
+		c.Check(bad == "", "C06-R10", "engage:refusal-changes-nothing", p.pos(eng.Pos()), "no field of the screen is stored on a path to an error return "+bad)
 	} else {
 		c.Undecided("C06-R9", "engage", "-", "not found")
+	}
+	// R10 (b): the flag that makes engage refuse is set before the teardown starts.  Fini's teardown
+	// releases the screen mutex while it waits for the loops; a Resume() from another goroutine in that
+	// window must already see the screen as finished.
+	if fin := p.Fn("tcell:(*tScreen).finish"); fin != nil {
+		var set ssa.Instruction
+		for _, st := range storesTo(fin, "tcell.tScreen", "fini") {
+			if v, isB := constBool(st.Val); isB && v {
+				set = st
+			}
+		}
+		ok, n := set != nil, 0
+		reach := func(fn *ssa.Function) bool {
+			for g := range staticReachFrom(p, fn) {
+				for range callsIn(g, func(_ string, cc *ssa.CallCommon) bool {
+					return cc.IsInvoke() && typeName(cc.Value.Type()) == "tcell.Tty" && (cc.Method.Name() == "Stop" || cc.Method.Name() == "Close")
+				}) {
+					return true
+				}
+			}
+			return false
+		}
+		eachInstr(fin, func(in ssa.Instruction) {
+			cc := callCommon(in)
+			if cc == nil {
+				return
+			}
+			if callee := staticCallee(cc); callee != nil && callee.Pkg == p.Tcell && reach(callee) {
+				n++
+				if set == nil || !instrDominates(set, in) {
+					ok = false
+				}
+			}
+		})
+		c.Check(ok && n > 0, "C06-R10", "finish:inert-before-teardown", p.pos(fin.Pos()), fmt.Sprintf("fini = true dominates the %d call(s) that hand the terminal back", n))
+	} else {
+		c.Undecided("C06-R10", "finish", "-", "not found")
 	}
 }
